@@ -38,6 +38,9 @@ var validRequests = []string{
 	`subscription S{watch(id: "a"){str}}`,
 	`{__schema{types{name fields{name args{name defaultValue}}}} __type(name: "In"){inputFields{name defaultValue}}}`,
 	`query A{str} query B{num}`,
+	`{ginp(in: {name: "b", tags: ["x", null, "y"], nums: [1, null], big: [1, 9007199254740993], flags: [null], subs: [null, {name: "c", tags: [null]}], sub: null})}`,
+	`{ginp(in: {tags: null, nums: [], subs: [{sub: {sub: {tags: [null, null]}}}], when: "2020-01-02T03:04:05Z", col: RED}, ins: [null, {name: null}, {nums: [2147483648]}])}`,
+	`query Q($i: GIn, $l: [GIn]){ginp(in: $i, ins: $l)}`, `{ginp(in: {tags: "x", nums: 1, subs: {name: "n"}, flags: [1], when: 5, col: 7})}`, `{ginp(in: {big: [null], zzz: 1})}`,
 	// a wrapper with nothing inside it, wherever a type or a name is read
 	`query($v: !){str}`, `query($v: [!]){str}`, `query($v: [!]!){str}`, `{... on ! {str}}`, `{...F} fragment F on ! {str}`, `{str @!}`, `{str @[]}`, `{... on [] {str}}`, `query($v: []){str}`,
 	`{stray{items sub{items} __typename ...on LA{items}} strays{items(first: 1) __typename sub{__typename}}}`, `{obj{stray{items}} strays{...F}} fragment F on Lister{items sub{items}}`,
@@ -264,6 +267,16 @@ func genVars(t *rapid.T, label string) map[string]interface{} {
 		if rapid.Bool().Draw(t, label+name+"has") {
 			m[name] = genJSONValue(t, 3, label+name)
 		}
+	}
+	// JSON shaped values for the Go-bound input of the corpus request Q($i: GIn, $l: [GIn])
+	if rapid.Bool().Draw(t, label+"gin") {
+		m["i"] = rapid.SampledFrom([]interface{}{
+			map[string]interface{}{"tags": []interface{}{nil}, "nums": []interface{}{nil, 1.0}},
+			map[string]interface{}{"subs": []interface{}{nil, map[string]interface{}{"tags": []interface{}{"a", nil}}}, "sub": nil},
+			map[string]interface{}{"big": []interface{}{nil}}, map[string]interface{}{"flags": []interface{}{nil, true}, "when": nil, "col": nil},
+			[]interface{}{nil}, nil, "x",
+		}).Draw(t, label+"giv")
+		m["l"] = rapid.SampledFrom([]interface{}{[]interface{}{nil}, []interface{}{map[string]interface{}{"tags": []interface{}{nil}}, nil}, nil, map[string]interface{}{"name": "n"}}).Draw(t, label+"glv")
 	}
 	return m
 }
